@@ -5,7 +5,7 @@
 //! validated by TLC against Builder.tla (BuilderTrace.tla).  Public API only.
 //!
 //! Scenario: {"name":..,"workers":W,"calls":[{"kind":"bind","addrs":[true,false,..]}|{"kind":"listen"}|{"kind":"uds"}],
-//!            "events":[{"k":"conn","s":p}|{"k":"fail","c":c}|{"k":"die","s":p}|{"k":"die2","s":p}|{"k":"diehold","s":p} (with "limit":2)|{"k":"pend","c":c}|{"k":"unpend","c":c}]}
+//!            "events":[{"k":"conn","s":p}|{"k":"fail","c":c}|{"k":"die","s":p}|{"k":"die2","s":p}|{"k":"diehold","s":p} (with "limit":2)|{"k":"stop","graceful":bool} (last event)|{"k":"pend","c":c}|{"k":"unpend","c":c}]}
 //! Trace records: {"ev":"reset"} {"ev":"call","kind","addrs","ok"} {"ev":"run","workers","ok"}
 //!                {"ev":"conn","s","by"} {"ev":"fail","c"} {"ev":"die"} {"ev":"made","made":[..]}
 
@@ -153,6 +153,28 @@ impl Sock {
             Ok(1) => Some(b[0]),
             Ok(_) => Some(0), // closed without an answer
             Err(_) => None,   // nothing yet
+        }
+    }
+
+    /// after a stop: > 0 the tag the service answered with, 0 still open and silent after `ms`, -1 closed (EOF or reset)
+    fn read_state(&mut self, ms: u64) -> i64 {
+        let to = Some(Duration::from_millis(ms));
+        let mut b = [0u8; 1];
+        let r = match self {
+            Sock::Tcp(s) => {
+                let _ = s.set_read_timeout(to);
+                s.read(&mut b)
+            }
+            Sock::Uds(s) => {
+                let _ = s.set_read_timeout(to);
+                s.read(&mut b)
+            }
+        };
+        match r {
+            Ok(1) => b[0] as i64,
+            Ok(_) => -1,
+            Err(e) if matches!(e.kind(), std::io::ErrorKind::WouldBlock | std::io::ErrorKind::TimedOut) => 0,
+            Err(_) => -1,
         }
     }
 }
@@ -471,6 +493,36 @@ pub fn run_scenario(sc: &Value, dir: &str, idx: usize) -> Vec<Value> {
                         out.push(json!({"ev": "survived"}));
                     }
                     out.push(json!({"ev": "made", "made": made_now(&sh)}));
+                }
+                "stop" => {
+                    // the server is stopped while connections wait in the workers' queues (some service is pending): they are
+                    // released - closed, not served, not left open - by the time the stop has completed (forced) or the
+                    // shutdown timeout has passed (graceful).  Afterwards the services become ready again: nothing is served
+                    let graceful = e["graceful"].as_bool().unwrap_or(false);
+                    let nwait = waiting.len();
+                    let rt = tokio::runtime::Builder::new_current_thread().enable_all().build().unwrap();
+                    let stop = handle.stop(graceful);
+                    let stopped = rt.block_on(async { tokio::time::timeout(Duration::from_secs(5), stop).await }).is_ok();
+                    let mut states: Vec<i64> = waiting.iter_mut().map(|k| k.read_state(700)).collect();
+                    for c in 1..=ncalls {
+                        sh.pend[c].store(false, Ordering::SeqCst);
+                    }
+                    for w in sh.wakers.lock().unwrap().drain(..) {
+                        w.wake();
+                    }
+                    for (i, k) in waiting.iter_mut().enumerate() {
+                        if states[i] == 0 {
+                            states[i] = match k.read_state(700) {
+                                0 => 0,
+                                -1 => -2, // closed only after the services became ready again
+                                t => t,
+                            };
+                        }
+                    }
+                    waiting.clear();
+                    out.push(json!({"ev": "stop", "graceful": graceful, "stopped": stopped, "nwait": nwait,
+                                    "released": states.iter().filter(|s| **s == -1).count(),
+                                    "served": states.iter().filter(|s| **s > 0).count(), "states": states}));
                 }
                 "diehold" => {
                     // a worker dies AT ITS LIMIT (scenario limit 2) inside a readiness check while a client keeps a connection
